@@ -5,6 +5,16 @@ matrices (C02, C05, C06, C07).  It is the oracle that judges the implementation'
 import cmath, math, itertools
 from fractions import Fraction
 
+
+def sabs(x):
+    """abs that saturates instead of raising on complex overflow"""
+    try:
+        return abs(x)
+    except OverflowError:
+        return float("inf")
+
+
+
 # ------------------------------------------------------------------------------------------------
 # scanner (C04): longest match; number = digits(.digits)?(e-?digits)?; word = start char then continue chars
 
@@ -549,8 +559,8 @@ class Evaluator:
                 if math.isnan(z.real) or math.isnan(z.imag) or math.isinf(z.real) or math.isinf(z.imag):
                     self.flags.add("nonfinite")
                 else:
-                    self.cond = max(self.cond, abs(z))
-                    if z != 0 and (abs(z) < 1e-150 or abs(z) > 1e150):
+                    self.cond = max(self.cond, sabs(z))
+                    if z != 0 and (sabs(z) < 1e-150 or sabs(z) > 1e150):
                         # squares under/overflow binary64: complex division and modulus lose all accuracy there
                         self.flags.add("extreme-magnitude")
 
@@ -586,14 +596,14 @@ class Evaluator:
                 return v
             if k == 1:
                 if v[0] == "n":
-                    return ("n", complex(abs(v[1])))
+                    return ("n", complex(sabs(v[1])))
                 if v[0] == "m" and (len(v[1]) == 1 or len(v[1][0]) == 1):
                     flat = [x for r in v[1] for x in r]
-                    return ("n", complex(math.sqrt(sum(abs(x) ** 2 for x in flat))))
+                    return ("n", complex(math.sqrt(sum(sabs(x) ** 2 for x in flat))))
                 raise Refuse("invalidGroupingOperand")
             if v[0] != "n":
                 raise Refuse("invalidGroupingOperand")
-            if v[1].imag != 0 and abs(v[1].imag) < 1e-9 * max(abs(v[1]), 1e-300):
+            if v[1].imag != 0 and sabs(v[1].imag) < 1e-9 * max(sabs(v[1]), 1e-300):
                 self.flags.add("near-real")        # the is-real test hinges on rounding
             if v[1].imag == 0 and inexact_tree(e[2]) and self.cond > 0:
                 self.flags.add("near-real") if has_complex(e[2], self.env) else None
@@ -601,7 +611,7 @@ class Evaluator:
                 raise Refuse("groupingValueConstraintNotMet")
             if not math.isfinite(v[1].real):
                 raise Unjudged()
-            if abs(v[1].real - round(v[1].real)) < 1e-9 * max(1.0, abs(v[1].real)) and (v[1].real != round(v[1].real) or inexact_tree(e[2])):
+            if sabs(v[1].real - round(v[1].real)) < 1e-9 * max(1.0, sabs(v[1].real)) and (v[1].real != round(v[1].real) or inexact_tree(e[2])):
                 self.flags.add("near-integer")
             return ("n", complex(math.ceil(v[1].real) if k == 2 else math.floor(v[1].real)))
         if t == "un":
@@ -627,10 +637,10 @@ class Evaluator:
                 if v[0] != "n":
                     raise Refuse("unsupportedUnaryOperator")
                 z = v[1]
-                if inexact_tree(e[2]) and abs(z.imag) < 1e-9 * max(1.0, abs(z)) and abs(z.real - round(z.real)) < 1e-9 * max(1.0, abs(z.real)):
+                if inexact_tree(e[2]) and sabs(z.imag) < 1e-9 * max(1.0, sabs(z)) and sabs(z.real - round(z.real)) < 1e-9 * max(1.0, sabs(z.real)):
                     self.flags.add("near-integer")     # the is-natural test hinges on rounding
                 if z.imag != 0 or z.real < 0 or z.real != math.floor(z.real) or not math.isfinite(z.real):
-                    if abs(z.imag) < 1e-12 and abs(z.real - round(z.real)) < 1e-9:
+                    if sabs(z.imag) < 1e-12 and sabs(z.real - round(z.real)) < 1e-9:
                         self.flags.add("near-integer")
                     raise Refuse("unaryOperatorValueConstraintNotMet")
                 n = int(z.real)
@@ -702,10 +712,10 @@ class Evaluator:
         if name == "inverse":
             A = args[0][1]
             d = leibniz_det(A)
-            scale = max(abs(x) for r in A for x in r) ** len(A) if A else 1.0
+            scale = max(sabs(x) for r in A for x in r) ** len(A) if A else 1.0
             if d == 0:
                 raise Refuse("noInverseForMatrix")
-            if abs(d) < 1e-9 * max(scale, 1e-300):
+            if sabs(d) < 1e-9 * max(scale, 1e-300):
                 self.flags.add("near-singular")
             n = len(A)
             if n == 1:
@@ -713,7 +723,7 @@ class Evaluator:
             cof = [[leibniz_det([[A[r][c] for c in range(n) if c != j] for r in range(n) if r != i]) * (-1) ** (i + j) for j in range(n)] for i in range(n)]
             return ("m", [[cof[j][i] / d for j in range(n)] for i in range(n)])
         z = args[0][1] if args and args[0][0] == "n" else None
-        simple = {"abs": lambda z: complex(abs(z)), "re": lambda z: complex(z.real), "im": lambda z: complex(z.imag),
+        simple = {"abs": lambda z: complex(sabs(z)), "re": lambda z: complex(z.real), "im": lambda z: complex(z.imag),
                   "conj": lambda z: z.conjugate(), "sin": cmath.sin, "cos": cmath.cos, "sinh": cmath.sinh, "cosh": cmath.cosh,
                   "ceil": lambda z: complex(math.ceil(z.real)), "floor": lambda z: complex(math.floor(z.real)),
                   "arg": lambda z: complex(cmath.phase(z))}
@@ -733,7 +743,7 @@ class Evaluator:
                 raise Unjudged()
             return ("n", cmath.sqrt(z) if name == "sqrt" else cmath.log(z))
         if name in ("gcd", "lcm"):
-            a, b = int(abs(args[0][1].real)), int(abs(args[1][1].real))
+            a, b = int(sabs(args[0][1].real)), int(sabs(args[1][1].real))
             if max(a, b) > 2 ** 53:
                 raise Unjudged()
             g = math.gcd(a, b)
@@ -781,7 +791,7 @@ class Evaluator:
             raise un
         if op == 10:
             if kb == "n" and ka in ("n", "m", "q"):
-                if abs(b[1]) == 0:
+                if sabs(b[1]) == 0:
                     raise Refuse("divisionByZero")
                 if ka == "n":
                     return ("n", a[1] / b[1])
@@ -811,10 +821,10 @@ class Evaluator:
             raise un
         if op == 15:
             if ka == "n" and kb == "n":
-                if abs(b[1]) == 0:
+                if sabs(b[1]) == 0:
                     raise Refuse("divisionByZero")
                 q = a[1] / b[1]
-                if any(abs(p - round(p)) < 1e-9 * max(1.0, abs(p)) for p in (q.real, q.imag)):
+                if any(sabs(p - round(p)) < 1e-9 * max(1.0, sabs(p)) for p in (q.real, q.imag)):
                     self.flags.add("near-integer")
                 return ("n", crem(a[1], b[1]))
             raise un
